@@ -414,9 +414,18 @@ func runEntry(c *mon.Ctx, e *entry, skipped map[string]bool) {
 					continue
 				}
 				// value assignments: a few choices of distinct / equal values per block
-				for va := 0; va < c.Pick(7, 50); va++ {
+				for va0 := 0; va0 < c.Pick(9, 52); va0++ {
 					vals := make([]int, nblocks)
+					va := va0
+					if va0 >= 9 {
+						va = va0 - 2
+					}
 					for b := range vals {
+						if va0 == 7 || va0 == 8 { // the other two rotations of the special values: every block holds 0 once,
+							// also the block that several argument positions share (0/0, O+O, the zero polynomial)
+							vals[b] = (b + 2*(va0-7)) % 3
+							continue
+						}
 						if va >= 4 && va <= 6 { // special classes of the type (towers: indexes 9..11, see towerEntries)
 							vals[b] = 9 + (va+b)%3
 							continue
